@@ -431,6 +431,39 @@ def r2(ck, prog, run):
                         return norm(c.args[0])
             return None
         a1, a2 = call_arg(inner["func"], "__call__"), call_arg(inner["fprime"], "f0")
+        # the function handed to the root finder must look its argument up in the table: the entry valid at guess + x is chosen from x.
+        # (A polynomial taken from phasepol(guess) before the search is one entry's polynomial, extrapolated wherever x leaves its span.)
+        ci_pp = prog.cls("PhasePredictor")
+        lookup = {"_get_index_and_dt"}
+        changed = True
+        while changed:
+            changed = False
+            for mname, mfi in list(ci_pp.methods.items()) + [(k_, v_["get"]) for k_, v_ in ci_pp.properties.items() if v_.get("get") is not None]:
+                if mname in lookup:
+                    continue
+                for c in ast.walk(mfi.node):
+                    if isinstance(c, ast.Call) and isinstance(c.func, ast.Attribute) and isinstance(c.func.value, ast.Name) and c.func.value.id == "self" and c.func.attr in lookup:
+                        lookup.add(mname)
+                        changed = True
+                        break
+                    if isinstance(c, ast.Call) and isinstance(c.func, ast.Name) and c.func.id == "self" and "__call__" in lookup:
+                        lookup.add(mname)
+                        changed = True
+                        break
+        def looks_up(fn):
+            params = {a.arg for a in fn.args.args}
+            for c in ast.walk(fn):
+                if not isinstance(c, ast.Call):
+                    continue
+                callee = "__call__" if (isinstance(c.func, ast.Name) and c.func.id == "self") else (
+                    c.func.attr if isinstance(c.func, ast.Attribute) and isinstance(c.func.value, ast.Name) and c.func.value.id == "self" else None)
+                if callee in lookup and any(isinstance(n_, ast.Name) and n_.id in params for a_ in list(c.args) + [k.value for k in c.keywords] for n_ in ast.walk(a_)):
+                    return True
+            return False
+        for nm_ in ("func", "fprime"):
+            ck.same("R2", ta.where, f"time_at: {nm_}(x)", "the function handed to the root finder evaluates the predictor (a method that reaches the table lookup "
+                    f"{sorted(lookup)[:6]}) at a time computed from x, so that the entry valid at that time is used", looks_up(inner[nm_]),
+                    found="no call of a table-lookup method with an argument depending on x", nontrivial=True)
         if a1 is None or a2 is None:
             ck.unk("R2", ta.where, "func / fprime", "both evaluate the predictor at a time argument", f"{a1} / {a2}")
         else:
